@@ -36,7 +36,7 @@ class C02(Prop):
     ASSUMPTIONS = ["expected doubles come from Python float() (correctly rounded), independent of the C library's strtod",
                    "only the C locale exists in this sandbox"]
     REQUIRED_CLASSES = ["escape", "nonascii", "fraction_or_exponent", "depth>=2", "duplicate_key", "bom",
-                        "depth=limit", "surrogate_pair", "escape_sweep_code_points"]
+                        "depth=limit", "surrogate_pair", "escape_sweep_code_points", "wide_shallow>limit"]
 
     def budget(self, tier):
         return {"workers": 14, "examples": 1200 if tier == "quick" else 12000}
@@ -50,6 +50,10 @@ class C02(Prop):
             leaves,
             st.tuples(st.sampled_from(["[", "{", "[{", "{[", "[[{"]), st.sampled_from([-1, 0, 0]), leaves).map(
                 lambda t: ["D", t[0], ["limit", t[1]], t[2]]),
+            # shallow but with more containers in total than the nesting limit (a depth counter that leaks shows here)
+            st.tuples(st.sampled_from([["O", []], ["A", []], ["O", [[b"k", ["A", []]]]], ["A", [["O", []]]]]), st.sampled_from([999, 1000, 1001, 1300, 2100]),
+                      st.sampled_from([["A", [["A", [["O", [[b"deep", ["A", [["t"]]]]]]]]]], ["O", [[b"x", ["O", [[b"y", ["O", []]]]]]]]])).map(
+                lambda t: ["A", [t[0]] * t[1] + [t[2]]]),
         )
         wsb = st.lists(st.sampled_from([b" ", b"\t", b"\n", b"\r"]), max_size=3).map(b"".join)
         return st.fixed_dictionaries({
@@ -110,6 +114,8 @@ class C02(Prop):
             classes.add("depth>=2")
         if depth == lib.nesting_limit:
             classes.add("depth=limit")
+        if jv[0] == "A" and len(jv[1]) >= 999:
+            classes.add("wide_shallow>limit")
         if case["bom"]:
             classes.add("bom")
         for n in model.walk_jv(jv):
